@@ -17,6 +17,8 @@ func init() {
 		func(c *Ctx) {
 			c.load("pkg/scale")
 			c.ruleEndian()
+			c.ruleUint128JSONErrors()
+			c.min("R-JSONERR", 2)
 			c.min("R-ENDIAN", 1)
 			c.min("R-ENDIAN/halves", 10)
 			c.min("R-NOSIGNCAST", 1)
